@@ -649,15 +649,18 @@ class _Flattener:
         self.process_function(g)
 
   # expression-level ---------------------------------------------------------------------------
-  def expr(self, e, info, depth=4):
-    """Replace calls to expression-shaped helpers inside e (in place where possible); returns the new root."""
+  def expr(self, e, info, depth=4, fold_ok=True):
+    """Replace calls to expression-shaped helpers inside e (in place where possible); returns the new root.
+    Helpers with a statement prefix are folded into one expression only where statements cannot be hoisted (tests,
+    comprehensions, lambdas): fold_ok says whether the root context is such a place."""
     if depth <= 0 or not isinstance(e, ast.AST):
       return e
 
-    def walk(x):
+    def walk(x, comp=False):
       if isinstance(x, (ast.FunctionDef, ast.ClassDef)):
         return x
-      x = dataflow._map_children(x, walk)
+      inner = comp or isinstance(x, (ast.ListComp, ast.SetComp, ast.DictComp, ast.GeneratorExp, ast.Lambda, ast.IfExp, ast.BoolOp))
+      x = dataflow._map_children(x, lambda c: walk(c, inner))
       if isinstance(x, ast.Call):
         # spread *helper(...) star-arguments of tuple-returning helpers
         new_args = []
@@ -671,7 +674,7 @@ class _Flattener:
         h, selfexpr = self.callee(info, x)
         if h is not None and self.is_helper(h) and h.node is not info.node:
           shape = helper_shape(h)
-          if shape and shape[0] == 'expr' and shape[1]:
+          if shape and shape[0] == 'expr' and shape[1] and (fold_ok or comp):
             folded = _fold_prefix(shape[1], shape[2])
             if folded is not None:
               shape = ('expr', [], folded, [ast.Return(value=folded)])
@@ -721,7 +724,7 @@ class _Flattener:
                 for k_ in val.keywords:
                   k_.value = self.expr(k_.value, info)
                 continue
-            setattr(st, fld, self.expr(val, info))
+            setattr(st, fld, self.expr(val, info, fold_ok=not isinstance(st, (ast.Assign, ast.AugAssign, ast.AnnAssign, ast.Return, ast.Expr))))
         if isinstance(st, (ast.Assign, ast.AugAssign, ast.AnnAssign, ast.Return, ast.Expr)) and getattr(st, 'value', None) is not None:
           heads = [('value', st.value)]
       pre_all = []
